@@ -136,6 +136,51 @@ def ordered_scan_probes(rep, thorough):
                 what = 'with the primary key in column %d and %d row-sets on disk, `%s` returns %s, expected %s' % (pkpos, nsets, q, json.dumps(got)[:160], json.dumps(exp)[:160])
                 outc = rep.counterexample(k_, what[:600], {'stmts': stmts + [q], 'got': got, 'expected': exp}, True)
                 rep.obligation(outc == 'known')
+    # (a) a key range pushed into the scan must not cost the order: WHERE on the key + ORDER BY key over several row-sets;
+    # (b) VARCHAR keys of different lengths: the storage order must be the value order ('aa' < 'b'), not a shorter-first one
+    for kind in ('int-range', 'varchar'):
+        if kind == 'int-range':
+            ddl = 'create table t(k int primary key, v int)'
+            keys = list(range(14))
+            lit = str
+        else:
+            ddl = 'create table t(k varchar primary key, v int)'
+            keys = sorted(['b', 'aa', 'abc', 'c', 'ab', 'a', 'ba', 'bb', 'aaa', 'z', 'az', 'b0'])
+            lit = lambda x: "'%s'" % x
+        for nsets in (2, 3):
+            parts = [keys[i::nsets] for i in range(nsets)]
+            stmts = [ddl, 'create table zz_verif_dummy(z int)'] + ['insert into t values ' + ', '.join('(%s, %d)' % (lit(k), i) for i, k in enumerate(p_)) for p_ in parts]
+            stmts.append('set mock_rowcount_zz_verif_dummy = 1')
+            qs = []
+            srt = sorted(keys)
+            preds = [('k > %s' % lit(srt[3]), lambda k: k > srt[3]), ('k >= %s and k < %s' % (lit(srt[2]), lit(srt[-2])), lambda k: srt[2] <= k < srt[-2]), ('k <= %s' % lit(srt[-3]), lambda k: k <= srt[-3])]
+            for ptxt, pf in preds:
+                exp = [[str(k)] for k in srt if pf(k)]
+                qs.append(('select k from t where %s order by k' % ptxt, exp))
+                qs.append(('select k from t where %s order by k desc' % ptxt, exp[::-1]))
+            qs.append(('select k from t order by k', [[str(k)] for k in srt]))
+            qs.append(('select k, count(*) from t group by k order by k', [[str(k), '1'] for k in srt]))
+            d = scratch_dir('c12scan')
+            out, rc, err = rl('sql', {'engine': 'disk', 'dir': d, 'block': 4096, 'rowset': 1 << 20, 'stmts': stmts + [q for q, _ in qs]}, timeout=300)
+            shutil.rmtree(d, ignore_errors=True)
+            res = {o['sql']: o for o in out if 'sql' in o}
+            for q, exp in qs:
+                o = res.get(q)
+                if o is None:
+                    rep.fail_inconclusive('ordered-scan probe did not run: %s' % err[-200:])
+                    break
+                n += 1
+                got = o['rows'] if o.get('ok') and not o.get('panicked') else ('panic' if o.get('panicked') else o.get('err'))
+                if got == exp:
+                    ok += 1
+                    continue
+                k_ = 'storage:ordered-scan:%s:%s' % (kind, 'with-key-range' if ' where ' in q else 'whole-table')
+                if k_ in seen:
+                    continue
+                seen.add(k_)
+                what = 'with a %s primary key and %d row-sets on disk, `%s` returns %s, expected %s' % ('VARCHAR' if kind == 'varchar' else 'INT', nsets, q, json.dumps(got)[:160], json.dumps(exp)[:160])
+                outc = rep.counterexample(k_, what[:600], {'stmts': stmts + [q], 'got': got, 'expected': exp}, True)
+                rep.obligation(outc == 'known')
     if n and n == ok:
         rep.obligation(True)
     rep.cov['ordered_scan_probes'] = {'queries_compared': n, 'agreeing': ok, 'note': 'key column in every position, 2-3 (thorough 1-4) interleaved row-sets, every select list holding the key; concrete probes of the storage contract'}
